@@ -12,7 +12,7 @@ from props import gen_c17 as G
 class C17(Prop):
     id = "C17"
     title = "A program loaded from a saved binary equals what its source compiles to"
-    lean_modules = ["NV.C17.Props", "NV.C17.Witness", "NV.C17.SpecTests"]
+    lean_modules = ["NV.C17.Props", "NV.C17.BinFileLemmas", "NV.C17.Witness", "NV.C17.SpecTests"]
     theorems = [
         "NV.C17.never_stale",
         "NV.C17.never_stale_transitive",
@@ -37,6 +37,9 @@ class C17(Prop):
         "NV.C17.every_pointer_member_handled",
         "NV.C17.only_switch_keys_are_addresses",
         "NV.C17.qsort_statements_tied",
+        "NV.C17.binary_file_roundtrip",
+        "NV.C17.decoded_file_has_valid_checksum",
+        "NV.C17.getField_checks_length",
         "NV.C17.layout_write_read_agree",
         "NV.C17.layout_checksum_covers_file",
     ]
@@ -52,7 +55,13 @@ class C17(Prop):
     consts = [("switchCaseSize", "SWITCH_CASE_SIZE"), ("fSwitch", "F_SWITCH"), ("nameInherited", "NAME_INHERITED"),
               ("indexStartNone", "INDEX_START_NONE"), ("sizeofProgram", "sizeof(program_t)"),
               ("sizeofCompilerFunction", "sizeof(compiler_function_t)"),
-              ("sizeofRuntimeFunction", "sizeof(runtime_function_u)")]
+              ("sizeofRuntimeFunction", "sizeof(runtime_function_u)"),
+              # where load_binary finds the four counts inside the program block it has just read (NV/C17/BinFile.lean)
+              ("offNumInherited", "offsetof(program_t, num_inherited)"), ("offNumStrings", "offsetof(program_t, num_strings)"),
+              ("offNumVariablesDefined", "offsetof(program_t, num_variables_defined)"),
+              ("offNumFunctionsDefined", "offsetof(program_t, num_functions_defined)"),
+              ("offTotalSize", "offsetof(program_t, total_size)"), ("sizeofCount", "sizeof(((program_t *)0)->num_inherited)"),
+              ("sizeofFunctionNumber", "sizeof(((program_t *)0)->num_functions_defined)")]
     const_headers = ["src/interpret.h", "lpc/program.h", "efuns_opcode.h"]
     quick_n = 800
     thorough_n = 6000
